@@ -22,7 +22,7 @@ def _short(x, n=160):
 
 
 class Loc:
-    __slots__ = ('state', 'stage', 'stage_exact', 'tainted', 'writer', 'key', 'err_dir', 'kind', 'slug', 'last_run', 'steps', 'fail_partial', 'tree', 'migrated')
+    __slots__ = ('state', 'stage', 'stage_exact', 'tainted', 'writer', 'key', 'err_dir', 'err_partial', 'kind', 'slug', 'last_run', 'steps', 'fail_partial', 'tree', 'migrated')
 
     def __init__(self, kind, slug, steps=0):
         self.state = 'absent'      # absent | complete | indoubt
@@ -32,6 +32,7 @@ class Loc:
         self.writer = None
         self.key = None
         self.err_dir = False
+        self.err_partial = False
         self.kind = kind
         self.slug = slug
         self.last_run = None       # dict: run record of the last successful run (for C18)
@@ -554,6 +555,20 @@ class Judge:
         ls = (o.get('res') or {}).get('ls') or {}
         prev = self.listings.get(store)
         self.listings[store] = ls
+        if op.get('expect') == 'error_dirs':
+            # work directories of failed directory-producing tasks are set aside as <key>_error; nothing partial is published
+            for (st, lid), loc in self.store.items():
+                if st != store or loc.kind != 'dir' or not loc.err_dir or not loc.key:
+                    continue
+                base = '/'.join(loc.slug.split(':')) + '/' + loc.key
+                self.stats['error_dir_checked'] += 1
+                if base + '_error' not in ls:
+                    self.disc('C05', 'I-set-aside', op['i'], f'work directory of the failed directory task {loc.slug} was not set aside as <key>_error',
+                              present=sorted(k for k in ls if k.startswith(base))[:6])
+                elif loc.err_partial and base + '_error/partial.txt' not in ls:
+                    self.disc('C05', 'I-set-aside', op['i'], f'{loc.slug}: the set-aside directory does not hold the failed run\'s work', present=sorted(k for k in ls if k.startswith(base))[:6])
+                if loc.state != 'complete' and base in ls:
+                    self.disc('C05', 'I-visible', op['i'], f'{loc.slug}: a directory result is published although its run failed', present=sorted(k for k in ls if k.startswith(base))[:6])
         exp = op.get('expect')
         if exp == 'unchanged' and prev is not None:
             changed = sorted(k for k in set(prev) | set(ls) if (k in prev) != (k in ls) or prev.get(k) != ls.get(k))
@@ -770,7 +785,7 @@ class Eval:
                     base = loc.stage if loc.stage_exact else (rec or {}).get('resumed_from', 0)
                     loc.stage = min(base + 1, loc.steps)
                     loc.stage_exact = True
-                self._failed(it, ob, loc, started=True, set_aside=(fault[0] != 'gen_raise' or True))
+                self._failed(it, ob, loc, started=True, set_aside=('partial' if fault[0] == 'raise_before_return' else True))
                 return 'fail'
         # success
         if loc is not None:
@@ -815,6 +830,7 @@ class Eval:
             loc.last_run = dict(loc.last_run, valid=False)
         if loc is not None and it.kind == 'dir' and started:
             loc.err_dir = True
+            loc.err_partial = bool(set_aside == 'partial')
 
     def _peek_runs_next(self, it, name):
         """does the observed invocation stream continue with a run belonging to `name` (or, for run-argument style, to
